@@ -40,6 +40,12 @@ pub enum Plan11 {
     /// over-modulus chunks spliced in (element index, count) for ALL parties: every party must
     /// skip them identically, so the report still verifies and aggregates to the same result
     Rejections { inst: Inst, ctx: Hx, nonce: Hx, rand: Hx, vk: Hx, meas: Vec<N>, usage: u16, inserts: Vec<(u32, u8)>, plen: u16 },
+    /// Poplar1 sharding over a recording SimXof: the client's single sharding stream is read as Field64 elements,
+    /// then one Field255 element, then Field64 pairs, then a Field255 pair (mixed element sizes on ONE stream, across
+    /// buffer refills); the correlated-randomness streams as Field64 / Field255 triples. Every element on the wire is
+    /// recomputed from the recorded stream bytes by chunk / mask / reject on plain integers. `script` optionally
+    /// replaces the streams of one usage (1 = sharding, 2 = inner correlated, 3 = leaf correlated) by crafted bytes.
+    PoplarStream { bits: u16, ctx: Hx, nonce: Hx, rand: Hx, meas: Vec<N>, script: Option<(u16, Hx)>, tape: Vec<u32> },
 }
 
 pub struct Check11;
@@ -134,10 +140,74 @@ pub fn gen_rejections(rng: &mut Rng, poplar: bool) -> Plan11 {
     Plan11::Rejections { ctx: Hx(rng.bytes(cl)), nonce: Hx(rng.bytes(16)), rand: Hx(rng.bytes(model::rand_len(&inst))), vk: Hx(rng.bytes(32)), meas: model::gen_meas(&inst, rng), usage, inserts, plen: rng.u32() as u16, inst }
 }
 
+/// Poplar1 sharding-stream run: bit lengths around the places where the 256-byte buffer of the sharding stream ends
+/// inside / right before / right after the Field255 reads, optionally with a crafted stream (rejections that shift the
+/// alignment of everything after them).
+pub fn gen_poplar_stream(rng: &mut Rng) -> Plan11 {
+    let bits: u16 = match rng.below(4) {
+        0 => 1 + rng.below(40) as u16,
+        1 => *rng.pick(&[1u16, 2, 8, 9, 10, 11, 19, 20, 21, 29, 30, 31, 32, 33, 34, 40, 41, 42, 51, 52, 62, 63, 64, 65, 96, 128]),
+        2 => 1 + rng.below(140) as u16,
+        _ => 28 + rng.below(8) as u16,
+    };
+    let script = if rng.chance(1, 2) {
+        let usage = 1 + rng.below(3) as u16;
+        let len = 64 + rng.usize_below(1200);
+        let mut b = rng.bytes(len);
+        // over-modulus material: 8-byte groups of 0xff (rejected as Field64; as part of a Field255 chunk they are just
+        // bits), whole 32-byte groups in [2^255 - 19, 2^255) with either top bit, and Field64 values just below p
+        let k = rng.usize_below(12);
+        for _ in 0..k {
+            let at = rng.usize_below(len.saturating_sub(40).max(1));
+            match rng.below(4) {
+                0 => {
+                    let at = at / 8 * 8;
+                    for x in b.iter_mut().skip(at).take(8) {
+                        *x = 0xff;
+                    }
+                }
+                1 => {
+                    for x in b.iter_mut().skip(at).take(8) {
+                        *x = 0xff;
+                    }
+                }
+                2 => {
+                    let v = over_modulus("f255", rng);
+                    for (x, y) in b.iter_mut().skip(at).zip(v.iter()) {
+                        *x = *y;
+                    }
+                }
+                _ => {
+                    let at = at / 8 * 8;
+                    let v = ((model::P64 as u64) - 1 - rng.below(2)).to_le_bytes();
+                    for (x, y) in b.iter_mut().skip(at).zip(v.iter()) {
+                        *x = *y;
+                    }
+                }
+            }
+        }
+        Some((usage, Hx(b)))
+    } else {
+        None
+    };
+    let cl = *rng.pick(&[0usize, 1, 7, 60]);
+    let nt = rng.usize_below(24);
+    Plan11::PoplarStream {
+        bits,
+        ctx: Hx(rng.bytes(cl)),
+        nonce: Hx(rng.bytes(16)),
+        rand: Hx(rng.bytes(32 + 3 * 32)),
+        meas: (0..bits).map(|_| N(rng.below(2) as u128)).collect(),
+        script,
+        tape: (0..nt).map(|_| rng.u32()).collect(),
+    }
+}
+
 fn gen(seed: u64, _tier: Tier) -> Plan11 {
     let mut rng = Rng::new(seed);
     let rng = &mut rng;
-    match rng.below(11) {
+    match rng.below(12) {
+        11 => gen_poplar_stream(rng),
         0..=3 => {
             let xof = *rng.pick(&["turboshake", "hmac", "fixedkey", "fixedkey_key"]);
             let sl = if xof.starts_with("fixedkey") { 16 } else { 32 };
@@ -515,6 +585,149 @@ where
     Ok(())
 }
 
+/// Sequential chunk / mask / reject reader over recorded stream bytes (plain integers; no library field code).
+struct RefReader<'a> {
+    s: &'a [u8],
+    pos: usize,
+    chunks: usize,
+    rejected: usize,
+    short: bool,
+}
+impl<'a> RefReader<'a> {
+    fn new(s: &'a [u8]) -> Self {
+        RefReader { s, pos: 0, chunks: 0, rejected: 0, short: false }
+    }
+    fn f64(&mut self) -> u128 {
+        loop {
+            if self.pos + 8 > self.s.len() {
+                self.short = true;
+                return 0;
+            }
+            let v = u64::from_le_bytes(self.s[self.pos..self.pos + 8].try_into().unwrap()) as u128;
+            self.pos += 8;
+            self.chunks += 1;
+            if v < model::P64 {
+                return v;
+            }
+            self.rejected += 1;
+        }
+    }
+    /// canonical little-endian bytes of the next Field255 element
+    fn f255(&mut self) -> [u8; 32] {
+        loop {
+            if self.pos + 32 > self.s.len() {
+                self.short = true;
+                return [0; 32];
+            }
+            let mut c: [u8; 32] = self.s[self.pos..self.pos + 32].try_into().unwrap();
+            self.pos += 32;
+            self.chunks += 1;
+            c[31] &= 0x7f;
+            if !(c[31] == 0x7f && c[1..31].iter().all(|b| *b == 0xff) && c[0] >= 0xed) {
+                return c;
+            }
+            self.rejected += 1;
+        }
+    }
+}
+fn mul64(a: u128, b: u128) -> u128 {
+    // a, b < 2^64: the product fits u128
+    (a * b) % model::P64
+}
+fn sub64(a: u128, b: u128) -> u128 {
+    (a + model::P64 - b) % model::P64
+}
+
+#[allow(non_snake_case)]
+fn poplar_stream_case(ctx: &mut Ctx, bits: usize, c: &[u8], nonce: &[u8; 16], rand: &[u8], meas: &[N], script: &Option<(u16, Hx)>, tape: &[u32]) -> Result<(), String> {
+    use prio::codec::Decode;
+    let sim: Poplar1<SimXof, 32> = Poplar1::new(bits);
+    let input = crate::inst_poplar::bits_to_input(meas);
+    sim_xof::install(XofCfg { tape: tape.to_vec(), script: script.as_ref().map(|(u, b)| (*u, b.0.clone())), recording: true, ..Default::default() });
+    let r = guard("Poplar1<SimXof>::shard_with_random", || sim.shard_with_random(c, &input, nonce, rand));
+    let cfg = sim_xof::take();
+    ctx.events += cfg.inits;
+    let (_public, shares) = match r {
+        Err(v) => {
+            ctx.fail(v);
+            return Ok(());
+        }
+        Ok(Err(e)) => {
+            ctx.fail(Violation::new("C11.poplar_stream", "shard_refused".to_string(), format!("Poplar1 (bits {bits}) refused to shard an in-range input: {e}")));
+            return Ok(());
+        }
+        Ok(Ok(x)) => x,
+    };
+    let stream = |usage: u16, nth: usize| -> Option<&Vec<u8>> { cfg.record.iter().filter(|(u, _)| *u == usage).nth(nth).map(|(_, b)| b) };
+    let (Some(sh), Some(ci0), Some(ci1), Some(cl0), Some(cl1)) = (stream(1, 0), stream(2, 0), stream(2, 1), stream(3, 0), stream(3, 1)) else {
+        // the library no longer creates the five streams the specification describes: nothing to compare with
+        ctx.fail(Violation::new("C11.poplar_stream", "streams".to_string(), format!("Poplar1 sharding (bits {bits}) did not create one sharding stream, two inner and two leaf correlated-randomness streams (usages seen: {:?})", cfg.record.iter().map(|(u, _)| *u).collect::<Vec<_>>())));
+        return Ok(());
+    };
+    let mut s = RefReader::new(sh);
+    let mut r0 = RefReader::new(ci0);
+    let mut r1 = RefReader::new(ci1);
+    // sharding stream: bits - 1 inner authenticators, the leaf authenticator, then the helper's (A, B) shares
+    let auth_inner: Vec<u128> = (0..bits - 1).map(|_| s.f64()).collect();
+    let auth_leaf_b = s.f255();
+    let mut want0: Vec<u8> = Vec::new();
+    let mut want1: Vec<u8> = Vec::new();
+    for auth in &auth_inner {
+        let a = (r0.f64() + r1.f64()) % model::P64;
+        let b = (r0.f64() + r1.f64()) % model::P64;
+        let cc = (r0.f64() + r1.f64()) % model::P64;
+        let A = (sub64(0, mul64(2, a)) + auth) % model::P64;
+        let B = (sub64((mul64(a, a) + b) % model::P64, mul64(a, *auth)) + cc) % model::P64;
+        let h = [s.f64(), s.f64()];
+        want1.extend_from_slice(&(h[0] as u64).to_le_bytes());
+        want1.extend_from_slice(&(h[1] as u64).to_le_bytes());
+        want0.extend_from_slice(&(sub64(A, h[0]) as u64).to_le_bytes());
+        want0.extend_from_slice(&(sub64(B, h[1]) as u64).to_le_bytes());
+    }
+    // leaf level: sampling by the reference reader, arithmetic with the library's Field255 (C11 is about the sampling)
+    let mut l0 = RefReader::new(cl0);
+    let mut l1 = RefReader::new(cl1);
+    let f = |b: [u8; 32]| Field255::get_decoded(&b).map_err(|e| format!("reference produced a non-canonical Field255 element: {e}"));
+    let auth_leaf = f(auth_leaf_b)?;
+    let a = f(l0.f255())? + f(l1.f255())?;
+    let b = f(l0.f255())? + f(l1.f255())?;
+    let cc = f(l0.f255())? + f(l1.f255())?;
+    let two = Field255::from(2u64);
+    let A = -two * a + auth_leaf;
+    let B = a * a + b - a * auth_leaf + cc;
+    let h = [f(s.f255())?, f(s.f255())?];
+    want1.extend_from_slice(&h[0].get_encoded().unwrap());
+    want1.extend_from_slice(&h[1].get_encoded().unwrap());
+    want0.extend_from_slice(&(A - h[0]).get_encoded().unwrap());
+    want0.extend_from_slice(&(B - h[1]).get_encoded().unwrap());
+    if s.short || r0.short || r1.short || l0.short || l1.short {
+        // the library consumed fewer stream bytes than sequential sampling needs: it cannot have sampled sequentially
+        ctx.fail(Violation::new("C11.poplar_stream", "short".to_string(), format!("Poplar1 sharding (bits {bits}) drew fewer bytes from a stream than chunk-by-chunk sampling of its elements consumes (sharding stream: {} bytes recorded, {} needed)", sh.len(), s.pos)));
+        return Ok(());
+    }
+    if s.rejected + r0.rejected + r1.rejected + l0.rejected + l1.rejected > 0 {
+        ctx.probe("rejection_sampling_rejected");
+    }
+    if s.pos > 256 {
+        ctx.probe("poplar_sharding_stream_refilled");
+        if (256 - (bits - 1) * 8 % 256) % 32 != 0 {
+            ctx.probe("poplar_field255_read_straddles_refill");
+        }
+    }
+    for (j, want) in [(0usize, &want0), (1usize, &want1)] {
+        let got = shares[j].get_encoded().map_err(|e| e.to_string())?;
+        if got.len() < 48 || got[48..] != want[..] {
+            let tail = got.get(48..).unwrap_or(&[]);
+            let first = tail.iter().zip(want.iter()).position(|(x, y)| x != y).unwrap_or(tail.len().min(want.len()));
+            let which = if first / 16 < bits - 1 { format!("inner level {} element {}", first / 16, first % 16 / 8) } else { format!("leaf element {}", (first - 16 * (bits - 1)) / 32) };
+            ctx.fail(Violation::new("C11.sampling", format!("poplar_stream|share{j}"), format!("Poplar1 (bits {bits}): correlated randomness of input share {j} ({which}) differs from chunk / mask / reject sampling of the recorded streams (sharding stream read as {} Field64, one Field255, {} Field64 and two Field255 elements; {} chunks rejected)", bits - 1, 2 * (bits - 1), s.rejected)));
+            return Ok(());
+        }
+    }
+    ctx.counters.inc("c11.poplar_stream_ok");
+    Ok(())
+}
+
 fn exec(p: &Plan11, ctx: &mut Ctx) -> Result<(), String> {
     ctx.nontrivial = true;
     match p {
@@ -638,6 +851,13 @@ fn exec(p: &Plan11, ctx: &mut Ctx) -> Result<(), String> {
                 }
                 c => Err(format!("class {c} not wired for the rejection run")),
             }
+        }
+        Plan11::PoplarStream { bits, ctx: c, nonce, rand, meas, script, tape } => {
+            ctx.sig.str("poplar_stream").u64(*bits as u64).u64(script.as_ref().map(|x| x.0 as u64 + 1).unwrap_or(0)).u64(c.0.len() as u64);
+            ctx.counters.inc("kind.poplar_stream");
+            let mut n16 = [0u8; 16];
+            n16.copy_from_slice(&nonce.0);
+            poplar_stream_case(ctx, *bits as usize, &c.0, &n16, &rand.0, meas, script, tape)
         }
         Plan11::EndToEnd { inst, ctx: c, nonce, rand, vk, meas, tape } => {
             ctx.sig.str("e2e").str(&inst.class).u64(inst.n as u64).u64(inst.len as u64).u64(tape.len() as u64 / 8);
@@ -785,6 +1005,28 @@ impl Check for Check11 {
                     out.push(Plan11::Sampler { field: field.clone(), mode: mode.clone(), script: script.clone(), count: count - 1, tail: *tail });
                 }
             }
+            Plan11::PoplarStream { bits, ctx, nonce, rand, meas, script, tape } => {
+                let mk = |bits: u16, script: Option<(u16, Hx)>, tape: Vec<u32>, ctx: Hx| Plan11::PoplarStream { bits, ctx, nonce: nonce.clone(), rand: rand.clone(), meas: meas[..bits as usize].to_vec(), script, tape };
+                if script.is_some() {
+                    out.push(mk(*bits, None, tape.clone(), ctx.clone()));
+                }
+                if !tape.is_empty() {
+                    out.push(mk(*bits, script.clone(), Vec::new(), ctx.clone()));
+                }
+                if !ctx.0.is_empty() {
+                    out.push(mk(*bits, script.clone(), tape.clone(), Hx(Vec::new())));
+                }
+                for b in [*bits / 2, bits.saturating_sub(32), bits.saturating_sub(1)] {
+                    if b >= 1 && b < *bits {
+                        out.push(mk(b, script.clone(), tape.clone(), ctx.clone()));
+                    }
+                }
+                if let Some((u, b)) = script {
+                    if b.0.len() > 8 {
+                        out.push(mk(*bits, Some((*u, Hx(b.0[..b.0.len() / 2].to_vec()))), tape.clone(), ctx.clone()));
+                    }
+                }
+            }
             Plan11::Rejections { inst, ctx, nonce, rand, vk, meas, usage, inserts, plen } => {
                 for i in 0..inserts.len() {
                     if inserts.len() > 1 {
@@ -803,7 +1045,7 @@ impl Check for Check11 {
         out.into_iter().map(|x| serde_json::to_value(x).unwrap()).collect()
     }
     fn rule(&self) -> String {
-        "three kinds of run: (reader) seed, dst and binder split into seeded parts (empty parts, one-byte dribbles) and the stream consumed by a seeded history of fill_bytes / next_u32 / next_u64 with sizes 0,1,15,16,17,31,32,33,167,168,169,4096 for XofTurboShake128, XofHmacSha256Aes128, XofFixedKeyAes128 and XofFixedKeyAes128Key::with_seed, compared with one one-shot read, Xof::seed_stream and into_seed; (sampler) into_field_vec and IdpfValue::generate for the four fields over a scripted byte stream with over-modulus chunks at slot 0, slot 31, in runs of 2..40 and 32 apart, compared with chunk/mask/reject on plain integers, and exact per-attempt consumption for generate; (end to end) Prio3 (count, sum, sumvec, histogram, multihot) and Poplar1 instantiated over SimXof, which re-splits every init/update/fill_bytes, compared byte-for-byte with the plain instantiation; distinct = distinct (kind, parameters, read history / script shape) signatures".into()
+        "four kinds of run: (poplar stream) Poplar1 sharding for bit lengths 1..140 over a recording SimXof, optionally with one usage's streams replaced by crafted bytes (misaligned 0xff groups, over-modulus Field255 chunks, values next to p): every correlated-randomness element of both input shares recomputed from the recorded stream bytes by chunk / mask / reject on plain integers, the single sharding stream being read as Field64 elements, one Field255 element, Field64 pairs and a Field255 pair across buffer refills; (reader) seed, dst and binder split into seeded parts (empty parts, one-byte dribbles) and the stream consumed by a seeded history of fill_bytes / next_u32 / next_u64 with sizes 0,1,15,16,17,31,32,33,167,168,169,4096 for XofTurboShake128, XofHmacSha256Aes128, XofFixedKeyAes128 and XofFixedKeyAes128Key::with_seed, compared with one one-shot read, Xof::seed_stream and into_seed; (sampler) into_field_vec and IdpfValue::generate for the four fields over a scripted byte stream with over-modulus chunks at slot 0, slot 31, in runs of 2..40 and 32 apart, compared with chunk/mask/reject on plain integers, and exact per-attempt consumption for generate; (end to end) Prio3 (count, sum, sumvec, histogram, multihot) and Poplar1 instantiated over SimXof, which re-splits every init/update/fill_bytes, compared byte-for-byte with the plain instantiation; distinct = distinct (kind, parameters, read history / script shape) signatures".into()
     }
     fn assumptions(&self) -> Vec<String> {
         vec!["the reference sampler works on little-endian integers (u64/u128/byte comparison for Field255) in checks_c11.rs".into(), "the one-shot stream of the same library XOF is the reference for chunking independence (the XOF primitive itself is not re-implemented)".into()]
